@@ -112,7 +112,7 @@ def spacingResult (items : List (Kind × Nat)) : List Nat :=
 
 def tokenSpacing (ft : FT) : FT :=
   let res := spacingResult (ft.map fun t => (t.tok.kind, t.fmt.sp))
-  (ft.zip res).map fun (t, s) => { t with fmt := { t.fmt with sp := s } }
+  ft.zipIdx.map fun (t, i) => { t with fmt := { t.fmt with sp := res.getD i t.fmt.sp } }
 
 /-! ### LowercaseKeywords -/
 
@@ -153,23 +153,28 @@ def commentIsSeparator (alnumNonAscii : Bytes → Bool) (comment : Bytes) : Bool
     let firstAlnum := if b < 0x80 then isAlnum b else alnumNonAscii first
     decide (c.length ≥ 10) && !firstAlnum && isRepetitionOf first c.length c
 
+/-- the slashes of a line comment (`//` or `///`) and the comment body after them -/
+def lineCommentParts (content : Bytes) : Option (Bytes × Bytes) :=
+  match content with
+  | 0x2F :: 0x2F :: 0x2F :: c1 => some ([0x2F, 0x2F, 0x2F], c1)
+  | 0x2F :: 0x2F :: c0 => some ([0x2F, 0x2F], c0)
+  | _ => none
+
+/-- the content with one space inserted after the slashes, when the rule asks for it -/
+def lineCommentSpaced (alnumNonAscii : Bytes → Bool) (pre comment : Bytes) : Option Bytes :=
+  match comment with
+  | b :: _ =>
+    if !isAsciiWs b && !commentIsSeparator alnumNonAscii comment then some (pre ++ [0x20] ++ comment) else none
+  | [] => none
+
 /-- `format_line_comment`: the new content, or `none` if `set_content` is not called -/
 def formatLineComment (alnumNonAscii : Bytes → Bool) (content : Bytes) : Option Bytes :=
-  match content with
-  | 0x2F :: 0x2F :: c0 =>
-    let comment := match c0 with | 0x2F :: c1 => c1 | _ => c0
-    let new1 : Option Bytes :=
-      match comment with
-      | b :: _ =>
-        if !isAsciiWs b && !commentIsSeparator alnumNonAscii comment then
-          some (content.take (content.length - comment.length) ++ [0x20] ++ comment)
-        else none
-      | [] => none
-    let trimmed := trimAsciiEnd content
-    if trimmed.length != content.length then
-      some (trimAsciiEnd (new1.getD content))
+  match lineCommentParts content with
+  | none => none
+  | some (pre, comment) =>
+    let new1 := lineCommentSpaced alnumNonAscii pre comment
+    if (trimAsciiEnd content).length != content.length then some (trimAsciiEnd (new1.getD content))
     else new1
-  | _ => none
 
 inductive DirState where
   | before | afterPlusMinus | afterDigit | afterComma | afterLetter | afterWord
@@ -235,12 +240,10 @@ def commentFormatter (alnumNonAscii : Bytes → Bool) (ft : FT) : FT := ft.map (
 
 def eofNewline (lines : List Line) (ft : FT) : FT :=
   if lines.any (fun l => l.ltype == .lEof) then
-    match ft.getLast? with
-    | some last =>
-      if last.tok.kind == .tEof then
-        ft.dropLast ++ [{ last with fmt := { last.fmt with nl := 1, sp := 0, ind := 0, cont := 0 } }]
-      else ft
-    | none => ft
+    ft.zipIdx.map fun (t, i) =>
+      if i + 1 == ft.length && t.tok.kind == .tEof then
+        { t with fmt := { t.fmt with nl := 1, sp := 0, ind := 0, cont := 0 } }
+      else t
   else ft
 
 /-! ### FormattingToggler / IgnoreAsmInstructions -/
